@@ -229,15 +229,30 @@ func (c *ShipConnection) endHandshakeWithError(err error) {
 func (c *ShipConnection) setHandshakeTimer(timerType timeoutTimerType, duration time.Duration) {
 	c.stopHandshakeTimer()
 
-	c.setHandshakeTimerRunning(true)
-	c.setHandshakeTimerType(timerType)
+	// every timer gets its own stop channel, so stopping can not get lost
+	// or reach another timer than the one that should be stopped
+	stopChan := make(chan struct{})
+
+	c.handshakeTimerMux.Lock()
+	c.handshakeTimerStopChan = stopChan
+	c.handshakeTimerRunning = true
+	c.handshakeTimerType = timerType
+	c.handshakeTimerMux.Unlock()
 
 	go func() {
 		select {
-		case <-c.handshakeTimerStopChan:
+		case <-stopChan:
 			return
 		case <-time.After(duration):
-			c.setHandshakeTimerRunning(false)
+			// only the current timer may report a timeout and only if it wasn't stopped
+			c.handshakeTimerMux.Lock()
+			if c.handshakeTimerStopChan != stopChan || !c.handshakeTimerRunning {
+				c.handshakeTimerMux.Unlock()
+				return
+			}
+			c.handshakeTimerRunning = false
+			c.handshakeTimerMux.Unlock()
+
 			c.handleState(true, nil)
 			return
 		}
@@ -246,15 +261,15 @@ func (c *ShipConnection) setHandshakeTimer(timerType timeoutTimerType, duration 
 
 // stop the handshake timer and close the channel
 func (c *ShipConnection) stopHandshakeTimer() {
-	if !c.getHandshakeTimerRunning() {
+	c.handshakeTimerMux.Lock()
+	defer c.handshakeTimerMux.Unlock()
+
+	if !c.handshakeTimerRunning {
 		return
 	}
 
-	select {
-	case c.handshakeTimerStopChan <- struct{}{}:
-	default:
-	}
-	c.setHandshakeTimerRunning(false)
+	close(c.handshakeTimerStopChan)
+	c.handshakeTimerRunning = false
 }
 
 func (c *ShipConnection) setHandshakeTimerRunning(value bool) {
